@@ -64,7 +64,12 @@ type Dir struct {
 	Cuts  []int  `json:"cuts,omitempty"`  // cut offsets into the byte stream
 	Empty []int  `json:"empty,omitempty"` // indices of data frames preceded by an empty DATA frame
 	End   string `json:"end"`             // last | separate | absent | trailers
-	Plain bool   `json:"plain,omitempty"` // non-gRPC streams only: the body is the plaintexts without length prefixes
+	// AbortAt > 0: the stream is torn down after that many bytes of it were sent - "rst": RST_STREAM
+	// in this direction, "end": END_STREAM on the truncated stream. Only what was complete by then
+	// is asserted for such a direction; it exists to be FOLLOWED by ordinary streams.
+	AbortAt  int    `json:"abort_at,omitempty"`
+	AbortHow string `json:"abort_how,omitempty"`
+	Plain    bool   `json:"plain,omitempty"` // non-gRPC streams only: the body is the plaintexts without length prefixes
 }
 
 // Case is one bidirectional stream through the adapter.
@@ -75,6 +80,9 @@ type Case struct {
 	S     Dir    `json:"s"`
 	Sched string `json:"sched,omitempty"` // interleaving of the two directions' frames
 	Conc  bool   `json:"conc,omitempty"`  // drive the two directions from two goroutines
+	// HOrd > 0 adds grpc-accept-encoding and grpc-timeout / user-agent fields and permutes the
+	// regular header fields (HTTP/2 does not order them): permutation number HOrd-1.
+	HOrd int `json:"hord,omitempty"`
 }
 
 func isGRPC(ct string) bool {
@@ -204,9 +212,10 @@ type built struct {
 	end    string
 	stream []byte
 	want   []wmsg
-	offs   []int // start offset of every complete message
-	tail   int   // bytes of an incomplete trailing message (raw mode, end absent)
-	cuts   []int // sanitised
+	offs   []int  // start offset of every complete message
+	tail   int    // bytes of an incomplete trailing message (raw mode with end absent, or aborted stream)
+	abort  string // "", "rst", "end"
+	cuts   []int  // sanitised
 	frames [][]byte
 }
 
@@ -319,6 +328,24 @@ func buildUncached(d Dir) *built {
 			b.stream = append(b.stream, flag, byte(n>>24), byte(n>>16), byte(n>>8), byte(n))
 			b.stream = append(b.stream, w.wire...)
 			b.want = append(b.want, w)
+		}
+	}
+	if d.AbortAt > 0 && d.AbortAt < len(b.stream) && (d.AbortHow == "rst" || d.AbortHow == "end") {
+		keep, endOfKept := 0, 0
+		for i, o := range b.offs {
+			if e := o + 5 + len(b.want[i].wire); e <= d.AbortAt {
+				keep, endOfKept = i+1, e
+			}
+		}
+		b.want, b.offs = b.want[:keep], b.offs[:keep]
+		b.stream = b.stream[:d.AbortAt]
+		b.tail = d.AbortAt - endOfKept
+		b.abort, b.end = d.AbortHow, "absent"
+		if len(b.offs) == 0 && d.Plain {
+			b.tail = 0
+		}
+		if b.tail == 0 && b.abort == "end" && !d.Plain {
+			b.abort, b.end = "", "last" // ends on a message boundary: an ordinary stream
 		}
 	}
 	// cuts: strictly inside the stream, sorted, distinct
@@ -460,21 +487,54 @@ type op struct {
 }
 
 func headersFor(c Case, dir string, d *built) []hpack.HeaderField {
-	var h []hpack.HeaderField
+	var h, reg []hpack.HeaderField
 	if dir == "c" {
 		h = append(h, hpack.HeaderField{Name: ":method", Value: "POST"}, hpack.HeaderField{Name: ":scheme", Value: "https"},
-			hpack.HeaderField{Name: ":path", Value: "/verif.Svc/Call"}, hpack.HeaderField{Name: ":authority", Value: "verif.example"},
-			hpack.HeaderField{Name: "te", Value: "trailers"})
+			hpack.HeaderField{Name: ":path", Value: "/verif.Svc/Call"}, hpack.HeaderField{Name: ":authority", Value: "verif.example"})
+		reg = append(reg, hpack.HeaderField{Name: "te", Value: "trailers"})
 	} else {
 		h = append(h, hpack.HeaderField{Name: ":status", Value: "200"})
 	}
 	if c.CT != "" {
-		h = append(h, hpack.HeaderField{Name: "content-type", Value: c.CT})
+		reg = append(reg, hpack.HeaderField{Name: "content-type", Value: c.CT})
 	}
 	if d.enc != "" {
-		h = append(h, hpack.HeaderField{Name: "grpc-encoding", Value: d.enc})
+		reg = append(reg, hpack.HeaderField{Name: "grpc-encoding", Value: d.enc})
 	}
-	return h
+	if c.HOrd > 0 {
+		reg = append(reg, hpack.HeaderField{Name: "grpc-accept-encoding", Value: "identity,deflate,gzip,snappy"})
+		if dir == "c" {
+			reg = append(reg, hpack.HeaderField{Name: "grpc-timeout", Value: "20S"}, hpack.HeaderField{Name: "user-agent", Value: "verif/1"})
+		}
+		// permutation number HOrd-1 (+ a fixed offset for the response so the two blocks differ), factorial number system
+		k := c.HOrd - 1
+		if dir == "s" {
+			k += 3
+		}
+		rest := append([]hpack.HeaderField{}, reg...)
+		reg = reg[:0]
+		for n := len(rest); n > 0; n-- {
+			i := k % n
+			k /= n
+			reg = append(reg, rest[i])
+			rest = append(rest[:i], rest[i+1:]...)
+		}
+	}
+	return append(h, reg...)
+}
+
+// encodingFirst: grpc-encoding is listed before content-type in the block that enables gRPC handling.
+func encodingFirst(h []hpack.HeaderField) bool {
+	ct, enc := -1, -1
+	for i, f := range h {
+		switch f.Name {
+		case "content-type":
+			ct = i
+		case "grpc-encoding":
+			enc = i
+		}
+	}
+	return enc >= 0 && ct >= 0 && enc < ct
 }
 
 var trailerFields = []hpack.HeaderField{{Name: "grpc-status", Value: "0"}, {Name: "grpc-message", Value: ""}}
@@ -494,7 +554,10 @@ func opsFor(c Case, dir string, d Dir, b *built) []op {
 		if empty[i] {
 			ops = append(ops, op{kind: 'D', data: []byte{}})
 		}
-		ops = append(ops, op{kind: 'D', data: f, end: b.end == "last" && i == len(b.frames)-1})
+		ops = append(ops, op{kind: 'D', data: f, end: (b.end == "last" || b.abort == "end") && i == len(b.frames)-1})
+	}
+	if b.abort == "rst" {
+		ops = append(ops, op{kind: 'R'})
 	}
 	switch b.end {
 	case "separate":
@@ -506,8 +569,11 @@ func opsFor(c Case, dir string, d Dir, b *built) []op {
 }
 
 func apply(p h2.Processor, o op) error {
-	if o.kind == 'H' {
+	switch o.kind {
+	case 'H':
 		return p.Header(o.hdr, o.end, http2.PriorityParam{})
+	case 'R':
+		return p.RSTStream(http2.ErrCodeCancel)
 	}
 	return p.Data(o.data, o.end)
 }
@@ -779,6 +845,7 @@ func judge(c Case, dir string, b *built, ops []op, err error, sink *sinkRec, pro
 	var cat []byte
 	ends, endAt := 0, -1
 	lastDataAt := -1
+	rsts := 0
 	for i, e := range sink.ev {
 		switch e.kind {
 		case 'H':
@@ -787,6 +854,11 @@ func judge(c Case, dir string, b *built, ops []op, err error, sink *sinkRec, pro
 			cat = append(cat, e.data...)
 			if len(e.data) > 0 {
 				lastDataAt = i
+			}
+		case 'R':
+			rsts++
+			if b.abort != "rst" || i != len(sink.ev)-1 {
+				v.Addf("C11/passthrough/"+g+"/unexpected-frame-type-at-sink", "%s: sink got RST_STREAM as frame %d of %d", where, i+1, len(sink.ev))
 			}
 		default:
 			v.Addf("C11/passthrough/"+g+"/unexpected-frame-type-at-sink", "%s: sink got a %c frame", where, e.kind)
@@ -797,6 +869,9 @@ func judge(c Case, dir string, b *built, ops []op, err error, sink *sinkRec, pro
 				endAt = i
 			}
 		}
+	}
+	if b.abort == "rst" && rsts != 1 {
+		v.Addf("C11/abort/"+g+"/rst-stream-not-forwarded-exactly-once", "%s: one RST_STREAM went in, the sink got %d:%s", where, rsts, summary(sink.ev))
 	}
 	okH := len(sHdr) == len(wantHdr)
 	for i := 0; okH && i < len(wantHdr); i++ {
@@ -864,7 +939,7 @@ func judge(c Case, dir string, b *built, ops []op, err error, sink *sinkRec, pro
 	// --- end of stream
 	switch b.end {
 	case "absent":
-		if ends > 0 {
+		if ends > 0 && b.abort != "end" { // END_STREAM on a truncated message: outside the statement, not asserted
 			v.Addf("C11/end-stream/"+g+"/fabricated-end-stream", "%s: no END_STREAM went in, the sink got %d:%s", where, ends, summary(sink.ev))
 		}
 	default:
@@ -945,6 +1020,20 @@ func dirClasses(c Case, name string, d Dir, add func(string)) (nontrivial bool) 
 	}
 	if b.tail > 0 {
 		add("incomplete-tail")
+	}
+	if b.abort != "" {
+		add("aborted-" + b.abort)
+		if b.tail > 0 {
+			add("aborted-with-partial-message-buffered")
+		}
+	}
+	if encodingFirst(headersFor(c, name, b)) {
+		add("grpc-encoding-before-content-type")
+		for _, w := range b.want {
+			if w.z && compresses(b.enc) {
+				add("grpc-encoding-before-content-type-with-compressed-message")
+			}
+		}
 	}
 	if len(d.Empty) > 0 && len(b.frames) > 0 {
 		add("empty-frames-inserted")
@@ -1107,6 +1196,9 @@ func genCase(t *rapid.T) Case {
 	var c Case
 	c.CT = rapid.SampledFrom(contentTypes).Draw(t, "ct")
 	c.Procs = rapid.SampledFrom([]string{"", "", "", "", "", "", "", "c", "s"}).Draw(t, "procs")
+	if rapid.IntRange(0, 3).Draw(t, "permute_headers") > 0 {
+		c.HOrd = rapid.IntRange(1, 720).Draw(t, "hord")
+	}
 	c.C = genDir(t, "c")
 	c.S = genDir(t, "s")
 	switch rapid.IntRange(0, 3).Draw(t, "order") {
@@ -1128,7 +1220,7 @@ func genCase(t *rapid.T) Case {
 	return c
 }
 
-const ruleGen = "rapid draws per direction an encoding (absent/identity/gzip/deflate/snappy), 0..6 messages (sizes 0..70000, edge-biased; compressed flag; random/text/zero payloads; compressed by compress/gzip, compress/flate at 4 levels, snappy framing writer), a cut set of the length-prefixed byte stream (none, message boundaries, inside 5-byte prefixes, fixed frame size, random offsets, every byte), optional empty DATA frames, END_STREAM on the last DATA frame / a separate empty frame / trailers / absent; content-type application/grpc (mostly), +proto/+json, or non-gRPC; both directions interleaved, sequential or on two goroutines; processors on both or one direction. Non-trivial = gRPC stream with a cut inside a 5-byte prefix or inside a payload, or a compressed message, or a separate END_STREAM frame."
+const ruleGen = "rapid draws per direction an encoding (absent/identity/gzip/deflate/snappy), 0..6 messages (sizes 0..70000, edge-biased; compressed flag; random/text/zero payloads; compressed by compress/gzip, compress/flate at 4 levels, snappy framing writer), a cut set of the length-prefixed byte stream (none, message boundaries, inside 5-byte prefixes, fixed frame size, random offsets, every byte), optional empty DATA frames, END_STREAM on the last DATA frame / a separate empty frame / trailers / absent; content-type application/grpc (mostly), +proto/+json, or non-gRPC; in 3 of 4 cases extra regular header fields (grpc-accept-encoding, grpc-timeout, user-agent) and a drawn permutation of all regular fields (grpc-encoding before or after content-type); both directions interleaved, sequential or on two goroutines; processors on both or one direction. Non-trivial = gRPC stream with a cut inside a 5-byte prefix or inside a payload, or a compressed message, or a separate END_STREAM frame."
 
 var propReframe = &kit.Prop[Case]{
 	ID: "C11", Name: "reframe", Rule: ruleGen,
@@ -1138,7 +1230,8 @@ var propReframe = &kit.Prop[Case]{
 		"compressed-gzip": 0.05, "compressed-deflate": 0.05, "compressed-snappy": 0.05,
 		"end-separate": 0.15, "end-last": 0.15, "end-trailers": 0.15, "end-absent": 0.15,
 		"non-grpc": 0.05, "zero-length-message": 0.1, "encodings-differ-by-direction": 0.2,
-		"interleaved-directions": 0.15,
+		"interleaved-directions":                                    0.15,
+		"grpc-encoding-before-content-type-with-compressed-message": 0.1,
 	},
 }
 
@@ -1273,4 +1366,6 @@ func TestAllCutSets(t *testing.T) {
 	propCuts.Enumerate(t, enumCases)
 }
 
-func TestReplay(t *testing.T) { kit.Replay(t, propReframe, propCuts, propStreams, propStreamKinds, propRelay, propRelayEdges) }
+func TestReplay(t *testing.T) {
+	kit.Replay(t, propReframe, propCuts, propStreams, propStreamKinds, propRelay, propRelayEdges)
+}
